@@ -45,6 +45,7 @@ def serial_family(v):
 
 
 def family(op):
+    if op in ('ItNew', 'ItTake', 'ItPeek', 'ItAdvance', 'IterCb', 'Ranges'): return 'C04'
     if op in ALG: return 'C01'
     if op in MUT: return 'C02'
     if op in QRY: return 'C03'
@@ -90,6 +91,8 @@ def attribute32(v):
         return 'C14'
     if c == 'goroutine-leak':
         return 'C12'
+    if c == 'iteration':
+        return 'C04'
     if c == 'caller-buffer-written':
         return 'C16' if op == 'DenseRT' else 'C08'
     return None
@@ -118,6 +121,7 @@ REQUIRED_OPS = {
     'C06': ['Ser', 'LoadLegal'],
     'C13': ['Freeze', 'FrozenRT'],
     'C08': ['Load', 'FrozenRT', 'DetachAll', 'Scribble'],
+    'C04': ['ItNew', 'ItTake', 'ItPeek', 'ItAdvance', 'IterCb', 'Ranges'],
 }
 
 
@@ -137,6 +141,7 @@ def mc_cfg(mode, struct, depth=1, maxlist=0, inv=True):
 
 def M(name, mode, struct, depth=1, maxlist=0, sim=None, workers=4):
     m = {'name': name, 'module': 'MCSet.tla', 'cfg_text': mc_cfg(mode, struct, depth, maxlist, inv=(mode == 'step')), 'workers': workers}
+    m['deps'] = ('RoaringSet.tla', 'Nums.tla', 'RoaringSerial.tla')
     if sim:
         m['mode'] = 'simulate'
         m['sim'] = sim
@@ -384,6 +389,9 @@ def c17(tier):
              'kinds': ['tiny', 'array', 'threshold', 'run', 'chunky', 'top', 'mixed'], 'sample': 0.15 if q else 0.5, 'extra': B},
             {'kind': 'replay', 'model': M('agg_S4', 'agg', 'S4', maxlist=3), 'kinds': ['tiny', 'array', 'run', 'chunky', 'top', 'mixed'], 'sample': 0.01 if q else 0.3, 'extra': B},
             {'kind': 'drive', 'profile': 'all64', 'traces': 200 if q else 4000, 'steps': 50, 'extra': B},
+            {'kind': 'drive', 'profile': 'iter64', 'traces': 80 if q else 1500, 'steps': 50, 'extra': B},
+            {'kind': 'replay', 'model': M('iter_S7', 'iter', 'S7', depth=6, sim={'num': 400 if q else 8000, 'depth': 8, 'seed': 11}),
+             'kinds': ['tiny', 'array', 'run', 'chunky', 'top', 'mixed'], 'sample': 0.05 if q else 0.3, 'extra': B},
         ],
     }
 
@@ -400,4 +408,19 @@ def c18(tier):
     }
 
 
-PLANS = {'C12': c12, 'C17': c17, 'C18': c18, 'C05': c05, 'C06': c06, 'C13': c13, 'C08': c08, 'C01': c01, 'C02': c02, 'C03': c03, 'C15': c15, 'C11': c11, 'C16': c16, 'C07': c07, 'C09': c09, 'C14': c14}
+def c04(tier):
+    q = tier == 'quick'
+    return {
+        'rule': 'RoaringIter.tla: iterators as state machines over atoms (rem / one), driven in groups; TLC simulates interleavings of ItNew/ItTake/ItPeek/ItAdvance (all kinds, all unset windows, all advance targets incl. behind the cursor) from every subset-state and enumerates every one-shot consumer x stop cell; replayed under concretisations (runs ending at 65535, chunks at consecutive keys, windows ending at 2^32) and validated step by step by TLC; plus random traces',
+        'assumptions': ASSUME_SET + ['enumerations above 2^22 values are not driven'],
+        'phases': [
+            {'kind': 'replay', 'model': M('iter_S7', 'iter', 'S7', depth=6, sim={'num': 400 if q else 8000, 'depth': 8, 'seed': 11}),
+             'kinds': ['tiny', 'array', 'threshold', 'bitmap', 'run', 'chunky', 'top', 'mixed'], 'sample': 0.12 if q else 0.5},
+            {'kind': 'replay', 'model': M('oneshot_S7', 'oneshot', 'S7'), 'kinds': ['tiny', 'array', 'threshold', 'bitmap', 'run', 'chunky', 'top', 'mixed'],
+             'sample': 0.03 if q else 0.6},
+            {'kind': 'drive', 'profile': 'iter', 'traces': 200 if q else 4000, 'steps': 60},
+        ],
+    }
+
+
+PLANS = {'C04': c04, 'C12': c12, 'C17': c17, 'C18': c18, 'C05': c05, 'C06': c06, 'C13': c13, 'C08': c08, 'C01': c01, 'C02': c02, 'C03': c03, 'C15': c15, 'C11': c11, 'C16': c16, 'C07': c07, 'C09': c09, 'C14': c14}
